@@ -578,7 +578,7 @@ func TestVerif_C06(t *testing.T) {
 		"cookie-octet keys (<=2 token symbols) x values (<=2) x domain {none, example.com} x path {none, /p/q} x %d combinations and %d key(s) x values <=%d x the same x all combinations. "+
 		"Oracle: the Set-Cookie string has exactly one ';'-separated segment per attribute set; Cookie.ParseBytes of it, ResponseHeader.SetCookie->Write->Read->VisitAllCookie/Cookie, and net/http.ParseSetCookie report no attribute that was not set "+
 		"and every flag/max-age/expiry that was; cookie-octet inputs come back byte-exact (expiry to the second). "+
-		"(b) request cookies: SetCookie sequences: 1 call with key,value <=%d adversarial symbols; 2 calls (key<=1,value<=%d); 3 calls (<=1,<=1); and <=3 calls over cookie-octet keys/values; "+
+		"(b) request cookies: SetCookie sequences: 1 call with key <=3, value <=%d adversarial symbols; 2 calls (key<=1,value<=%d then key<=1,value<=2); 3 calls (<=1,<=1); and <=3 calls over cookie-octet keys/values; "+
 		"RequestHeader.Write->Read->VisitAllCookie/Cookies() and net/http Request.Cookies() never see more cookies than distinct keys set, octet inputs are seen exactly. "+
 		"Non-trivial: (a) a setter had to neutralise its argument or the case is a cookie-octet round trip; (b) an argument contains a delimiter (; = SP \" , \\ CR LF) or the case is an octet round trip.",
 		advLen, len(c06Words)*3, len(allAttrs), len(pairAttrs), len(oneAttr), vrt.Pick(r, 1, 3), vrt.Pick(r, 3, 4), advLen, vrt.Pick(r, 2, 3)))
@@ -698,7 +698,8 @@ func TestVerif_C06(t *testing.T) {
 	advN := c06Strings(c06Adv, advLen, false)
 	adv1 := c06Strings(c06Adv, 1, false)
 	advV2 := c06Strings(c06Adv, vrt.Pick(r, 2, 3), false)
-	for _, k := range advN {
+	advK := c06Strings(c06Adv, 3, false)
+	for _, k := range advK {
 		k := k
 		rjobs = append(rjobs, func(st *c06ReqStats) {
 			for _, v := range advN {
@@ -711,7 +712,7 @@ func TestVerif_C06(t *testing.T) {
 			k1, v1 := k1, v1
 			rjobs = append(rjobs, func(st *c06ReqStats) {
 				for _, k2 := range adv1 {
-					for _, v2 := range advV2 {
+					for _, v2 := range adv2 {
 						c06CheckReq(r, []c06KV{{k1, v1}, {k2, v2}}, st)
 					}
 				}
